@@ -474,7 +474,7 @@ fn queries() -> impl Strategy<Value = CliCase> {
         3 => gen::num_expr(small).prop_map(|e| render_canonical(&e)),
         3 => super::c02::pair().prop_map(|p| render_canonical(&super::c02::expr_of(&p))),
         3 => super::c04::tree().prop_map(|e| render_canonical(&e)),
-        3 => super::c18::exprs().prop_map(|es| if es.len() == 1 { render_canonical(&es[0]) } else { es.iter().map(|e| format!("({})", render_canonical(e))).collect::<Vec<_>>().join(" ") }),
+        3 => super::c18::exprs_plain().prop_map(|es| if es.len() == 1 { render_canonical(&es[0]) } else { es.iter().map(|e| format!("({})", render_canonical(e))).collect::<Vec<_>>().join(" ") }),
         2 => plural,
         1 => denom,
         2 => errors,
